@@ -288,7 +288,7 @@ class Stand:
             self.msgs[i] = (k, bytes(m.header), bytes(m.data), m)
             script.append({"i": i, "k": k, "v": v, "msg": m, "type_id": type(data).type_id})
         if not script or script[-1]["k"] != "EXIT" or script[-1]["v"] != "me":
-            if not (self.beh["steps"] and self.beh["steps"][-1].get("crash")):
+            if not self.beh.get("observe") and not (self.beh["steps"] and self.beh["steps"][-1].get("crash")):
                 raise HarnessError("behaviour does not end with EXIT to the logger")
             # the specification says run() is left by an exception at the last step: a closing EXIT keeps a logger that survives
             # that step from waiting forever
@@ -737,3 +737,19 @@ def replay(beh: Dict[str, Any]) -> Dict[str, Any]:
         st.restore()
     res["left"] = getattr(st, "left", 0)
     return {"res": res, "verdicts": judge(beh, res)}
+
+
+def observe(script: List[str], tables: Dict[str, Any]) -> Dict[str, Any]:
+    """run a hand-written script (["ADDC:two", "START", ...]; a closing EXIT is added) on the real DataLogger and return what
+    it did -- no expectations, for reproducing a finding.  tables: any exported behaviour (for its "ds" / "cv" tables)."""
+    steps = []
+    for i, it in enumerate(script, start=1):
+        k, _, v = it.partition(":")
+        steps.append({"i": i, "k": k, "v": v})
+    st = Stand({"steps": steps, "ds": tables["ds"], "cv": tables["cv"], "recs": [], "observe": True})
+    try:
+        res = st.run()
+    finally:
+        st.restore()
+    res["left"] = getattr(st, "left", 0)
+    return res
